@@ -23,6 +23,12 @@ TEMPLATES = {
 "unresolved_name_with_equally_close_globals": "scale_x :: 1\nscale_y :: 2\nscale_z :: 3\nstart :: fn do\n    v := 4\n    pr(scale_w + v)\nend\n",
 "enum_case_missing_variants": "En :: enum\n    P,\n    Q,\n    R,\n    S,\nend\nstart :: fn do\n    e := En.P\n    case e do\n        P -> pr(1) end\n    end\nend\n",
 "multi_file_duplicate_names": None,
+# several independent errors in fields / variants written on ONE line (the one-line form of small blobs and enums)
+"blob_unresolved_field_types_same_line": "A :: blob { x: Foo, y: Bar, z: Baz }\nstart :: fn do\n    pr(1)\nend\n",
+"enum_unresolved_variant_types_same_line": "En :: enum P Foo, Q Bar, R Baz end\nstart :: fn do\n    pr(1)\nend\n",
+"blob_bad_type_arguments_same_line": "Box :: blob { v: int }\nA :: blob { x: Box(int), y: Box(str), z: Box(bool) }\nstart :: fn do\n    pr(1)\nend\n",
+"enum_bad_type_arguments_same_line": "Box :: blob { v: int }\nEn :: enum P Box(int), Q Box(str), R *U end\nstart :: fn do\n    pr(1)\nend\n",
+"valid_same_line_declarations": "A :: blob { x: int, y: str, z: (int, int) }\nEn :: enum P int, Q str, R end\nstart :: fn do\n    a := A { z: (1, 2), y: \"s\", x: 1 }\n    pr(a)\n    pr(En.Q \"q\")\nend\n",
 }
 FILES = {"multi_file_duplicate_names": {"main.sy": PRE + "use a\nuse b\nfrom a use (va, vb)\nfrom b use (va, vb)\nstart :: fn do\n    pr(va)\nend\n", "a.sy": "va :: 1\nvb :: 2\n", "b.sy": "va :: 3\nvb :: 4\n"}}
 _CTX = {}
